@@ -78,6 +78,9 @@ let holds _ cl impl =
   else if not (nw lin post) then fail "PostLinearize made the feerate diagram worse"
   else if (match postold with Some po -> not (nw c.old po) | None -> false)
   then fail "PostLinearize(old) is not topological or has a worse diagram than old"
+  else if Model.post_linearize n c.deps c.fr lin <> post then fail "PostLinearize(Linearize output) differs from the PostLinearize model"
+  else if (match postold with Some po -> Model.post_linearize n c.deps c.fr c.old <> po | None -> false)
+  then fail "PostLinearize(old) differs from the PostLinearize model"
   else if not (Model.chunks_connected c.fr c.deps post) then fail "a chunk of the PostLinearize output is not connected"
   else if (match postold with Some po -> not (Model.chunks_connected c.fr c.deps po) | None -> false)
   then fail "a chunk of PostLinearize(old) is not connected"
